@@ -4,6 +4,7 @@
 import Proofs.C10_Instr
 import Proofs.C10_Fields
 import Proofs.C10_Convert
+import Proofs.C10_GlobalMain
 namespace Mammoth
 
 /-! ### `replace_fragment` -/
@@ -390,5 +391,305 @@ example : (visit c10_exCfg false (.noteRef S!"footnote" S!"4")).run { noteRefs :
   rw [C10_note_numbering]; rfl
 example : Dict.get? S!"href" (Dict.ofList (c10_linkAttrs c10_exCfg { anchor := some S!"bm", targetFrame := some S!"_blank" }))
     = some S!"#doc-bm" := by decide
+
+/-! ### GLOBAL statements: the whole output forest of a whole document
+
+  Vocabulary (all defined in `Proofs/C10_Global*.lean`):
+  * `idsOf ns`, `hrefsOf ns`: all values of the attribute `id` / `href` in the forest `ns`, in document
+    order; `anchorsOf ns`: the elements carrying both, as (id, href, text).
+  * `c10_cleanCfg cfg`: no HTML path of the style map and no attribute returned by the image converter is
+    called `id` or `href` (decidable; true of the default style map).  Without it the user's own style map
+    (`p => p[id='x']`) writes ids the converter knows nothing about (example below).
+  * `c10_outEvents cfg d`: the EVENTS of the output, a function of the input document only — bookmarks,
+    hyperlinks, note references and (enabled) comment references in reading order (nothing below an
+    ignored paragraph/run/table), first of the body, then for every note the body references its item
+    (`li`), the events of its body and its back-link, then likewise for every comment referenced from the
+    body or from a rendered note.  `c10_evId` / `c10_evHref` say which id / href each event writes. -/
+
+/-- CHARACTERISATION.  Under a clean configuration, if the conversion succeeds, the ids and the hrefs of the
+    output forest are exactly — same values, same order, same multiplicity — the ones the events of the
+    document prescribe, and the note references recorded are the note-reference events. -/
+theorem C10_output_ids_hrefs (cfg : Cfg) (d : Document) (r : ConvResult) (hc : c10_cleanCfg cfg = true)
+    (h : convertDoc cfg d = .ok r) :
+    idsOf r.nodes = (c10_outEvents cfg d).flatMap (c10_evId cfg) ∧
+    hrefsOf r.nodes = (c10_outEvents cfg d).flatMap (c10_evHref cfg) ∧
+    r.noteRefs = c10_evRefs (c10_outEvents cfg d) := by
+  obtain ⟨e1, e2, _, _, e5, _⟩ := c10_convertDoc_events cfg hc d r h
+  exact ⟨e1, e2, e5⟩
+
+/-- (2) Under a clean configuration EVERY id of the output forest starts with `id_prefix`, for every
+    document whose conversion succeeds. -/
+theorem C10_all_ids_prefixed (cfg : Cfg) (d : Document) (r : ConvResult) (hc : c10_cleanCfg cfg = true)
+    (h : convertDoc cfg d = .ok r) : ∀ x ∈ idsOf r.nodes, cfg.idPrefix <+: x :=
+  c10_all_ids_prefixed cfg hc d r h
+
+/-- (3) Under a clean configuration, when the conversion succeeds (so every note reference of the body
+    resolved) and the rendered note and comment bodies reference only notes that the body references too
+    and the rendered comment bodies only comments referenced from the body or a rendered note
+    (`c10_refsClosed`; in particular when those bodies contain no references at all, `c10_bodiesPlain`):
+    the href of every note reference, note back-link, comment reference and comment back-link is `#x` with
+    `x` an id of the output; consequently every href of the output is either the href of one of the
+    document's hyperlinks or such a resolving `#x`. -/
+theorem C10_all_generated_hrefs_resolve (cfg : Cfg) (d : Document) (r : ConvResult)
+    (hc : c10_cleanCfg cfg = true) (h : convertDoc cfg d = .ok r)
+    (hcl : c10_refsClosed (c10_docCfg cfg d) d = true) :
+    (∀ ev ∈ c10_outEvents cfg d, c10_isLink ev = false → ∀ hr ∈ c10_evHref cfg ev,
+        ∃ x, hr = '#' :: x ∧ x ∈ idsOf r.nodes) ∧
+    (∀ hr ∈ hrefsOf r.nodes,
+        (∃ l, c10_Ev.link l ∈ c10_outEvents cfg d ∧ hr = c10_linkHref cfg l) ∨
+        ∃ x, hr = '#' :: x ∧ x ∈ idsOf r.nodes) :=
+  c10_all_hrefs_resolve cfg hc d r h hcl
+
+/-- (3), exact form.  When the visited reference keys are distinct and well formed and no bookmark is named
+    `type-id` for a visited reference key (`c10_noClash`: then an href can only resolve to the item it means),
+    the hypothesis of (3) is NECESSARY as well: all generated hrefs resolve iff `c10_refsClosed`. -/
+theorem C10_generated_hrefs_resolve_iff (cfg : Cfg) (d : Document) (r : ConvResult)
+    (hc : c10_cleanCfg cfg = true) (h : convertDoc cfg d = .ok r)
+    (hcl : c10_noClash (c10_outEvents cfg d) = true) :
+    (∀ ev ∈ c10_outEvents cfg d, c10_isLink ev = false → ∀ hr ∈ c10_evHref cfg ev,
+        ∃ x, hr = '#' :: x ∧ x ∈ idsOf r.nodes) ↔ c10_refsClosed (c10_docCfg cfg d) d = true :=
+  c10_resolve_iff_closed cfg hc d r h hcl
+
+/-- the simple form of the hypothesis of (3) implies it -/
+theorem C10_bodiesPlain_closed (cfg : Cfg) (d : Document) (h : c10_bodiesPlain cfg d = true) :
+    c10_refsClosed cfg d = true := c10_bodiesPlain_closed cfg d h
+
+/-- Back-links need no hypothesis on the bodies: the back-link of every rendered note or comment points at
+    the id of a reference anchor of the output. -/
+theorem C10_backlinks_resolve (cfg : Cfg) (d : Document) (r : ConvResult) (hc : c10_cleanCfg cfg = true)
+    (h : convertDoc cfg d = .ok r) (ty id : Str) (hev : c10_Ev.back ty id ∈ c10_outEvents cfg d) :
+    referenceId cfg ty id ∈ idsOf r.nodes :=
+  c10_all_backlinks_resolve cfg hc d r h ty id hev
+
+/-- (3b) Internal hyperlinks.  A hyperlink with anchor `a` has href `#` + `id_prefix` + `a`
+    (`C10_hyperlink_href`).  That target is an id of the output iff `a` is the name of a visited bookmark
+    or one of the suffixes the converter generates itself (`type-ref-id` of a visited reference, `type-id`
+    of a rendered note/comment); so, for an anchor that is not of a generated form, the link resolves iff a
+    bookmark of that name is visited (in the body, a rendered note or a rendered comment). -/
+theorem C10_internal_link_resolves_iff_bookmark (cfg : Cfg) (d : Document) (r : ConvResult)
+    (hc : c10_cleanCfg cfg = true) (h : convertDoc cfg d = .ok r) (a : Str) :
+    (cfg.idPrefix ++ a ∈ idsOf r.nodes ↔
+      a ∈ c10_evBookmarks (c10_outEvents cfg d) ∨ a ∈ c10_generated (c10_outEvents cfg d)) ∧
+    ((c10_generated (c10_outEvents cfg d)).contains a = false →
+      (cfg.idPrefix ++ a ∈ idsOf r.nodes ↔ c10_Ev.bookmark a ∈ c10_outEvents cfg d)) :=
+  c10_internal_link_iff cfg hc d r h a
+
+/-- (4) Uniqueness.  Under a clean configuration the ids of the output are pairwise distinct as soon as
+    (`c10_uniqueHyp`, a decidable condition on the events of the document):
+    no two visited references have the same key — note references keyed (type, id), comment references
+    ("comment", id), counting the references inside rendered note and comment bodies —; every key is well
+    formed: the type contains no `-` and the id does not start with `ref-` (`c10_keyOK`; this is exactly
+    what makes `type-ref-id` and `type-id` injective and disjoint); bookmark names are pairwise distinct;
+    and no bookmark is named like a generated id (`c10_generated`). -/
+theorem C10_ids_unique (cfg : Cfg) (d : Document) (r : ConvResult) (hc : c10_cleanCfg cfg = true)
+    (h : convertDoc cfg d = .ok r) (hu : c10_uniqueHyp (c10_outEvents cfg d) = true) :
+    (idsOf r.nodes).Nodup :=
+  c10_ids_unique cfg hc d r h hu
+
+/-- (4) in the vocabulary of the docx reader (note types are `footnote` / `endnote`): the ids are pairwise
+    distinct when the list of (type, id) note references visited has no duplicates, the list of comment
+    references visited has no duplicates, no note or comment id starts with `ref-`, bookmark names are pairwise
+    distinct and no bookmark is named like a generated id (`c10_uniqueHypSimple`). -/
+theorem C10_ids_unique_reader (cfg : Cfg) (d : Document) (r : ConvResult) (hc : c10_cleanCfg cfg = true)
+    (h : convertDoc cfg d = .ok r) (hu : c10_uniqueHypSimple (c10_outEvents cfg d) = true) :
+    (idsOf r.nodes).Nodup :=
+  c10_ids_unique_simple cfg hc d r h hu
+
+/-- (4), exact form: the ids are pairwise distinct iff the id suffixes (bookmark names, `type-ref-id`,
+    `type-id`) prescribed by the events are. -/
+theorem C10_ids_unique_iff (cfg : Cfg) (d : Document) (r : ConvResult) (hc : c10_cleanCfg cfg = true)
+    (h : convertDoc cfg d = .ok r) :
+    (idsOf r.nodes).Nodup ↔ (c10_evSuffixes (c10_outEvents cfg d)).Nodup :=
+  c10_ids_unique_iff cfg hc d r h
+
+/-- (5a) `strip_empty` and `collapse` on ANY forest: no value of any attribute is invented (the values after
+    are a sub-list of the values before); `collapse` keeps every value of every attribute and only drops
+    repeated occurrences (when it merges two adjacent elements with equal attributes); `strip_empty` keeps
+    all ids when every element with an id has content; so pairwise distinct ids survive exactly. -/
+theorem C10_strip_collapse_attrs (k : Str) (ns : List Node) :
+    (valsOfL k (collapse (stripEmpty ns))).Sublist (valsOfL k ns) ∧
+    ((valsOfL k (collapse ns)).Sublist (valsOfL k ns) ∧ ∀ x ∈ valsOfL k ns, x ∈ valsOfL k (collapse ns)) ∧
+    (c10_idContentL ns = true → idsOf (stripEmpty ns) = idsOf ns) ∧
+    (c10_idContentL ns = true → (idsOf ns).Nodup → idsOf (collapse (stripEmpty ns)) = idsOf ns) :=
+  ⟨c10_render_vals k ns, c10_collapse_sq k ns, c10_ids_stripEmpty ns, c10_render_ids_nodup ns⟩
+
+/-- (5b) The rendered forest `collapse (strip_empty nodes)` of a successful conversion under a clean
+    configuration has exactly the same set of ids (in the same order, repeated ones possibly fewer; the very
+    same list when they are distinct) — notes, comments, reference anchors and bookmarks all have content —
+    and its hrefs are a sub-list of the hrefs before. -/
+theorem C10_ids_survive_render (cfg : Cfg) (d : Document) (r : ConvResult) (hc : c10_cleanCfg cfg = true)
+    (h : convertDoc cfg d = .ok r) :
+    (∀ x, x ∈ idsOf (collapse (stripEmpty r.nodes)) ↔ x ∈ idsOf r.nodes) ∧
+    (idsOf (collapse (stripEmpty r.nodes))).Sublist (idsOf r.nodes) ∧
+    (hrefsOf (collapse (stripEmpty r.nodes))).Sublist (hrefsOf r.nodes) ∧
+    ((idsOf r.nodes).Nodup → idsOf (collapse (stripEmpty r.nodes)) = idsOf r.nodes) :=
+  c10_render_survival cfg hc d r h
+
+/-- (5c) Hence (3) and (4) hold for the rendered forest: under the hypothesis of (3) every href of
+    `collapse (strip_empty nodes)` is a hyperlink's href or `#x` with `x` an id of the rendered forest; under
+    the hypothesis of (4) the ids of the rendered forest are the ids before, pairwise distinct. -/
+theorem C10_rendered_hrefs_resolve_ids_unique (cfg : Cfg) (d : Document) (r : ConvResult)
+    (hc : c10_cleanCfg cfg = true) (h : convertDoc cfg d = .ok r) :
+    (c10_refsClosed (c10_docCfg cfg d) d = true →
+      ∀ hr ∈ hrefsOf (collapse (stripEmpty r.nodes)),
+        (∃ l, c10_Ev.link l ∈ c10_outEvents cfg d ∧ hr = c10_linkHref cfg l) ∨
+        ∃ x, hr = '#' :: x ∧ x ∈ idsOf (collapse (stripEmpty r.nodes))) ∧
+    (c10_uniqueHyp (c10_outEvents cfg d) = true →
+      idsOf (collapse (stripEmpty r.nodes)) = idsOf r.nodes ∧ (idsOf (collapse (stripEmpty r.nodes))).Nodup) :=
+  ⟨c10_render_resolve cfg hc d r h, c10_render_unique cfg hc d r h⟩
+
+/-- (6) Labels, when no comment reference is rendered (no `comment-reference` mapping — the default — or no
+    comment reference visited).  The anchors of the output (elements with id and href) are the note
+    references in reading order: their texts are `[1]`, `[2]`, …, `[n]` (n the number of references
+    visited), their hrefs `#` + the referent id and their ids the reference id of the 1st, 2nd, … reference;
+    the output ends with the `ol` of the notes and the `dl` of the comments, and the i-th `li` of the `ol`
+    has the referent id of the i-th reference, i.e. the id the i-th anchor's href names (the `li`s are those
+    of the references of the body: as many as all references when note bodies contain none). -/
+theorem C10_labels_in_order (cfg : Cfg) (d : Document) (r : ConvResult) (hc : c10_cleanCfg cfg = true)
+    (h : convertDoc cfg d = .ok r) (hnc : (c10_evCRefs (c10_outEvents cfg d)).isEmpty = true) :
+    (anchorsOf r.nodes).map (·.2.2) = (List.range' 1 r.noteRefs.length).map c10_label ∧
+    (anchorsOf r.nodes).map (·.2.1) = r.noteRefs.map (fun ref => S!"#" ++ referentId cfg ref.1 ref.2) ∧
+    (anchorsOf r.nodes).map (·.1) = r.noteRefs.map (fun ref => referenceId cfg ref.1 ref.2) ∧
+    ∃ body items cnodes, r.nodes = body ++ [el S!"ol" [] items, el S!"dl" [] cnodes] ∧
+      items.length ≤ r.noteRefs.length ∧
+      items.map c10_nodeId = (r.noteRefs.take items.length).map (fun ref => some (referentId cfg ref.1 ref.2)) :=
+  c10_labels cfg hc d r h hnc
+
+/-- (6), general form (comment references enabled): the anchors are, in reading order, those of the note
+    and comment reference events; the k-th note reference visited is labelled `[k]` and the k-th comment
+    reference `[` initials k `]`, each kind with its own counter (`c10_evAnchors`). -/
+theorem C10_labels_interleaved (cfg : Cfg) (d : Document) (r : ConvResult) (hc : c10_cleanCfg cfg = true)
+    (h : convertDoc cfg d = .ok r) :
+    anchorsOf r.nodes = c10_evAnchors (c10_docCfg cfg d) 0 0 (c10_outEvents cfg d) :=
+  c10_labels_general cfg hc d r h
+
+/-! #### non-vacuity and necessity of the hypotheses -/
+
+private def c10_gCfg : Cfg := { idPrefix := S!"doc-" }
+private def c10_gT (s : Str) : Elem := .run {} [.text s]
+/-- two paragraphs: a bookmark, a footnote reference; an internal link to the bookmark, an endnote reference -/
+private def c10_gDoc : Document :=
+  { children := [
+      .paragraph {} [.bookmark (some S!"top"), c10_gT S!"Hello", .noteRef S!"footnote" S!"1"],
+      .paragraph {} [.hyperlink { anchor := some S!"top" } [c10_gT S!"up"], .noteRef S!"endnote" S!"1"]],
+    notes := [{ ty := S!"footnote", id := S!"1", body := [.paragraph {} [c10_gT S!"fn"]] },
+              { ty := S!"endnote", id := S!"1", body := [.paragraph {} [c10_gT S!"en"]] }] }
+
+/-- the example satisfies every hypothesis used above -/
+example : c10_cleanCfg c10_gCfg = true ∧ (∃ r, convertDoc c10_gCfg c10_gDoc = .ok r) ∧
+    c10_refsClosed (c10_docCfg c10_gCfg c10_gDoc) c10_gDoc = true ∧
+    c10_bodiesPlain (c10_docCfg c10_gCfg c10_gDoc) c10_gDoc = true ∧
+    c10_uniqueHyp (c10_outEvents c10_gCfg c10_gDoc) = true ∧
+    c10_uniqueHypSimple (c10_outEvents c10_gCfg c10_gDoc) = true ∧
+    c10_noClash (c10_outEvents c10_gCfg c10_gDoc) = true ∧
+    (c10_evCRefs (c10_outEvents c10_gCfg c10_gDoc)).isEmpty = true ∧
+    (c10_generated (c10_outEvents c10_gCfg c10_gDoc)).contains S!"top" = false :=
+  ⟨by decide, ⟨_, rfl⟩, by decide, by decide, by decide, by decide, by decide, by decide, by decide⟩
+
+/-- its events -/
+example : c10_outEvents c10_gCfg c10_gDoc =
+    [.bookmark S!"top", .noteRef S!"footnote" S!"1", .link { anchor := some S!"top" }, .noteRef S!"endnote" S!"1",
+     .item S!"footnote" S!"1", .back S!"footnote" S!"1", .item S!"endnote" S!"1", .back S!"endnote" S!"1"] := by
+  decide
+
+/-- its output: ids, hrefs, labels, before and after `strip_empty`/`collapse` -/
+example : ∃ r, convertDoc c10_gCfg c10_gDoc = .ok r ∧
+    idsOf r.nodes = [S!"doc-top", S!"doc-footnote-ref-1", S!"doc-endnote-ref-1", S!"doc-footnote-1", S!"doc-endnote-1"] ∧
+    hrefsOf r.nodes = [S!"#doc-footnote-1", S!"#doc-top", S!"#doc-endnote-1", S!"#doc-footnote-ref-1",
+                       S!"#doc-endnote-ref-1"] ∧
+    (anchorsOf r.nodes).map (·.2.2) = [S!"[1]", S!"[2]"] ∧
+    idsOf (collapse (stripEmpty r.nodes)) = idsOf r.nodes ∧
+    hrefsOf (collapse (stripEmpty r.nodes)) = hrefsOf r.nodes :=
+  ⟨_, rfl, by decide, by decide, by decide, by decide, by decide⟩
+
+private def c10_gCfgC : Cfg :=
+  { idPrefix := S!"doc-", styleMap := [{ matcher := .commentReference, path := .elements [pathElem S!"sup" true] }] }
+/-- comment references enabled: the body references comment 1 and footnote 1, whose body references comment 2 -/
+private def c10_gDocC : Document :=
+  { children := [.paragraph {} [c10_gT S!"x", .commentRef S!"1", .noteRef S!"footnote" S!"1"]],
+    notes := [{ ty := S!"footnote", id := S!"1", body := [.paragraph {} [c10_gT S!"fn", .commentRef S!"2"]] }],
+    comments := [{ id := S!"1", body := [.paragraph {} [c10_gT S!"c1"]], authorInitials := some S!"AB" },
+                 { id := S!"2", body := [.paragraph {} [c10_gT S!"c2"]], authorInitials := some S!"CD" }] }
+
+example : c10_cleanCfg c10_gCfgC = true ∧ (∃ r, convertDoc c10_gCfgC c10_gDocC = .ok r) ∧
+    c10_refsClosed (c10_docCfg c10_gCfgC c10_gDocC) c10_gDocC = true ∧
+    c10_uniqueHyp (c10_outEvents c10_gCfgC c10_gDocC) = true ∧
+    c10_uniqueHypSimple (c10_outEvents c10_gCfgC c10_gDocC) = true ∧
+    c10_noClash (c10_outEvents c10_gCfgC c10_gDocC) = true :=
+  ⟨by decide, ⟨_, rfl⟩, by decide, by decide, by decide, by decide⟩
+
+example : ∃ r, convertDoc c10_gCfgC c10_gDocC = .ok r ∧
+    idsOf r.nodes = [S!"doc-comment-ref-1", S!"doc-footnote-ref-1", S!"doc-footnote-1", S!"doc-comment-ref-2",
+                     S!"doc-comment-1", S!"doc-comment-2"] ∧
+    hrefsOf r.nodes = [S!"#doc-comment-1", S!"#doc-footnote-1", S!"#doc-comment-2", S!"#doc-footnote-ref-1",
+                       S!"#doc-comment-ref-1", S!"#doc-comment-ref-2"] ∧
+    (anchorsOf r.nodes).map (·.2.2) = [S!"[AB1]", S!"[1]", S!"[CD2]"] :=
+  ⟨_, rfl, by decide, by decide, by decide⟩
+
+private def c10_gTagX : Tag := { name := S!"p", attrs := [(S!"id", S!"x")] }
+private def c10_gStyleX : Style := { matcher := Matcher.paragraph none none none, path := .elements [c10_gTagX] }
+private def c10_gCfgDirty : Cfg := { idPrefix := S!"doc-", styleMap := [c10_gStyleX] }
+/-- NECESSITY of `c10_cleanCfg` for (2): a style map `p => p[id='x']` writes an id without the prefix. -/
+example : c10_cleanCfg c10_gCfgDirty = false ∧ ∃ r, convertDoc c10_gCfgDirty c10_gDoc = .ok r ∧
+    S!"x" ∈ idsOf r.nodes ∧ ¬ S!"doc-" <+: S!"x" :=
+  ⟨by decide, _, rfl, by decide, by decide⟩
+
+/-- NECESSITY of `c10_refsClosed` for (3), notes: footnote 2 is referenced only from the body of footnote 1.
+    The conversion succeeds, the marker `[2]` links to `#doc-footnote-2`, but footnote 2 is not rendered:
+    the href dangles.  (Same output from the Python code; documented, outside the grammar.) -/
+private def c10_gDocA : Document :=
+  { children := [.paragraph {} [c10_gT S!"x", .noteRef S!"footnote" S!"1"]],
+    notes := [{ ty := S!"footnote", id := S!"1", body := [.paragraph {} [c10_gT S!"fn1", .noteRef S!"footnote" S!"2"]] },
+              { ty := S!"footnote", id := S!"2", body := [.paragraph {} [c10_gT S!"fn2"]] }] }
+example : c10_refsClosed (c10_docCfg c10_gCfg c10_gDocA) c10_gDocA = false ∧
+    ∃ r, convertDoc c10_gCfg c10_gDocA = .ok r ∧
+      S!"#doc-footnote-2" ∈ hrefsOf r.nodes ∧ S!"doc-footnote-2" ∉ idsOf r.nodes :=
+  ⟨by decide, _, rfl, by decide, by decide⟩
+
+/-- NECESSITY of `c10_refsClosed` for (3), comments: comment 2 is referenced only from the body of comment 1
+    (the list of comments to render is fixed before the comment bodies are visited). -/
+private def c10_gDocB : Document :=
+  { children := [.paragraph {} [c10_gT S!"x", .commentRef S!"1"]],
+    comments := [{ id := S!"1", body := [.paragraph {} [c10_gT S!"c1", .commentRef S!"2"]], authorInitials := some S!"AB" },
+                 { id := S!"2", body := [.paragraph {} [c10_gT S!"c2"]], authorInitials := some S!"CD" }] }
+example : c10_refsClosed (c10_docCfg c10_gCfgC c10_gDocB) c10_gDocB = false ∧
+    ∃ r, convertDoc c10_gCfgC c10_gDocB = .ok r ∧
+      S!"#doc-comment-2" ∈ hrefsOf r.nodes ∧ S!"doc-comment-2" ∉ idsOf r.nodes :=
+  ⟨by decide, _, rfl, by decide, by decide⟩
+
+/-- NECESSITY of the parts of `c10_uniqueHyp` for (4).  (i) a note referenced twice: its reference id and its
+    `li` both appear twice. -/
+private def c10_gDocE : Document :=
+  { children := [.paragraph {} [c10_gT S!"x", .noteRef S!"footnote" S!"1", .noteRef S!"footnote" S!"1"]],
+    notes := [{ ty := S!"footnote", id := S!"1", body := [.paragraph {} [c10_gT S!"fn1"]] }] }
+example : c10_uniqueHyp (c10_outEvents c10_gCfg c10_gDocE) = false ∧
+    ∃ r, convertDoc c10_gCfg c10_gDocE = .ok r ∧ ¬ (idsOf r.nodes).Nodup :=
+  ⟨by decide, _, rfl, by decide⟩
+
+/-- (ii) an id starting with `ref-`: the referent id of footnote `ref-1` IS the reference id of footnote `1`
+    (`doc-footnote-ref-1`): the precise collision between the two id builders. -/
+private def c10_gDocCol : Document :=
+  { children := [.paragraph {} [c10_gT S!"x", .noteRef S!"footnote" S!"1", .noteRef S!"footnote" S!"ref-1"]],
+    notes := [{ ty := S!"footnote", id := S!"1", body := [.paragraph {} [c10_gT S!"fn1"]] },
+              { ty := S!"footnote", id := S!"ref-1", body := [.paragraph {} [c10_gT S!"fn2"]] }] }
+example : c10_uniqueHyp (c10_outEvents c10_gCfg c10_gDocCol) = false ∧
+    decide ((c10_evKeys (c10_outEvents c10_gCfg c10_gDocCol)).Nodup) = true ∧
+    ∃ r, convertDoc c10_gCfg c10_gDocCol = .ok r ∧ ¬ (idsOf r.nodes).Nodup ∧
+      (idsOf r.nodes).count S!"doc-footnote-ref-1" = 2 :=
+  ⟨by decide, by decide, _, rfl, by decide, by decide⟩
+
+/-- (iii) a bookmark named like a generated id -/
+private def c10_gDocD : Document :=
+  { children := [.paragraph {} [.bookmark (some S!"footnote-1"), c10_gT S!"x", .noteRef S!"footnote" S!"1"]],
+    notes := [{ ty := S!"footnote", id := S!"1", body := [.paragraph {} [c10_gT S!"fn1"]] }] }
+example : c10_uniqueHyp (c10_outEvents c10_gCfg c10_gDocD) = false ∧
+    ∃ r, convertDoc c10_gCfg c10_gDocD = .ok r ∧ ¬ (idsOf r.nodes).Nodup :=
+  ⟨by decide, _, rfl, by decide⟩
+
+/-- (5): `collapse` really can merge two elements with the same id (two bookmarks of the same name next to
+    each other): the id then appears once instead of twice — same set, fewer repetitions. -/
+example : idsOf [cel S!"a" [(S!"id", S!"b")] [.forceWrite], cel S!"a" [(S!"id", S!"b")] [.forceWrite]] = [S!"b", S!"b"] ∧
+    idsOf (collapse (stripEmpty [cel S!"a" [(S!"id", S!"b")] [.forceWrite], cel S!"a" [(S!"id", S!"b")] [.forceWrite]]))
+      = [S!"b"] := by decide
 
 end Mammoth
